@@ -19,7 +19,7 @@ TECHNIQUE = {
     'C': 'deterministic simulation: seeded scheduler interleaving actor threads at every file-system call and SQL statement, acked-history oracle',
     'S': 'deterministic simulation: seeded stream programs in lock-step with io.BytesIO, cleaner interleaved at seam calls',
     'H': 'deterministic simulation: seeded sequential multi-handle histories, every handle checked against the reference model after every step',
-    'U': 'deterministic simulation: backup actor (in-process rsync stub) scheduled against writers/packer at seam-call granularity',
+    'U': 'deterministic simulation: backup actor (in-process rsync stub cross-checked against /usr/bin/rsync; the real rsync at phase granularity in a fraction of the runs) scheduled against writers/packer at seam-call granularity',
     'A+D': 'deterministic simulation: seeded histories with validate() after every step + storage-rot fault injection (bit flips, truncations, index perturbations) with read-back ground truth',
     'A+K': 'deterministic simulation: seeded histories under randomised lookup thresholds, bulk results vs single-key results vs model',
     'A+B': 'deterministic simulation: seeded repack-free histories with pack bytes compared before/after every step, plus fault injection: kill inside an operation then restart, and one failing seam call then the same handle continues',
@@ -41,7 +41,7 @@ TEXT = {
     'C12': '(a) validate() after every step of seeded histories; (b) single damages enumerated / sampled on small containers with ground truth from reading every object.',
     'C13': 'Pack bytes and raw index compared before/after every step of repack-free histories over several handles, also when the history continues after a kill (new process on the crash image) or after an I/O error (same handle).',
     'C14': 'Import matrix between two independently configured containers.',
-    'C15': 'The real backup_container driven through an in-process rsync stub, interleaved with writers and a pack-writer.',
+    'C15': 'The real backup_container driven through an in-process rsync stub (or, in a fraction of the runs, the real rsync), interleaved with writers and a pack-writer; every successful backup is opened as a container and verified.',
     'C16': 'Bulk vs single-key results under randomised thresholds; the stand-alone helper clause is checked by an adjunct exhaustive enumeration that is not a simulation result (DESIGN.md 5).',
     'C17': 'One fault per execution at every (thorough) / sampled (quick) seam call of each victim operation kind, then recovery and re-run.',
     'C18': 'Descriptor census and open-file table during histories and bulk reads; request sizes and tracemalloc peaks on large generated objects (evidence of boundedness, not a bound).',
